@@ -32,12 +32,12 @@ struct FileCases {
     /// grey-box value substitutions in the XML part: (line, byte start, byte end, replacement literal)
     lits: Vec<(usize, usize, usize, String)>,
     /// further single edits: (line, kind, byte start, byte end); kind 0 = the file ends in the middle of the line (at
-    /// byte start), 1 = the text of an XML element emptied, 2 = an XML attribute removed, 3 = the line loses its second half
-    /// (the file goes on)
+    /// byte start), 1 = the text of an XML element emptied, 2 = an XML attribute removed, 3 / 4 / 5 = the line loses everything
+    /// behind its middle / first quarter / third quarter (the file goes on)
     extras: Vec<(usize, u8, usize, usize)>,
 }
 
-const EXTRA_KINDS: [&str; 4] = ["truncate-midline", "xml-empty-text", "xml-remove-attribute", "cut-line-midway"];
+const EXTRA_KINDS: [&str; 6] = ["truncate-midline", "xml-empty-text", "xml-remove-attribute", "cut-line-midway", "cut-line-at-a-quarter", "cut-line-at-three-quarters"];
 
 const NUM_REPL: [&str; 5] = ["abc", "1e39", "-1", "99999999", "0"];
 
@@ -212,6 +212,15 @@ impl FileCases {
                 }
                 extras.push((li, 0u8, cut, cut));
                 extras.push((li, 3u8, cut, l.len()));
+                for (kind, num) in [(4u8, 1usize), (5u8, 3usize)] {
+                    let mut c = l.len() * num / 4;
+                    while !l.is_char_boundary(c) {
+                        c += 1;
+                    }
+                    if c > 0 && c < l.len() && c != cut {
+                        extras.push((li, kind, c, l.len()));
+                    }
+                }
             }
             if fmt == Fmt::Ctehexml && !(li >= bdl_range.0 && li < bdl_range.1) {
                 if let (Some(a), Some(b)) = (l.find('>'), l.rfind("</")) {
@@ -590,7 +599,7 @@ pub fn run(ctx: &Ctx) -> i32 {
     ctx.sample(json!({"kind": k1, "case": d1}));
     ctx.finish(
         "fault_enumeration",
-        &format!("every single-edit corruption {{delete line, duplicate line, truncate after line, truncate in the middle of the line, cut the line midway}} of every line, {{element text emptied, attribute removed}} for every element / attribute of the XML part, {{remove block}} for every BDL block, {{rename reference}} for every reference occurrence, every numeric token x {{abc, 1e39, -1, 99999999}} of every shipped project file (12 .ctehexml, 56 .cte, 6 KyG, 7 .tbl: {} damaged files); thorough runs all of them, quick runs every edit of the smallest file of each format (deterministic core) plus the slice i = VERIF_SEED mod {} of the rest, plus - for every 3rd block that holds a non-ASCII letter - the deletion of its header line and of its first such line, the file cut in the middle of each, and each of them cut midway; each damaged text goes through ctehexml::parse + cached catalog + Model::try_from (resp. Data::new, kyg::parse, tbl::parse) in a supervised worker (15 s watchdog, 4 GiB, panic-site capture); non-trivial = the damage is noticed (error or panic)", total, stride),
+        &format!("every single-edit corruption {{delete line, duplicate line, truncate after line, truncate in the middle of the line, cut the line at its middle / first quarter / third quarter}} of every line, {{element text emptied, attribute removed}} for every element / attribute of the XML part, {{remove block}} for every BDL block, {{rename reference}} for every reference occurrence, every numeric token x {{abc, 1e39, -1, 99999999}} of every shipped project file (12 .ctehexml, 56 .cte, 6 KyG, 7 .tbl: {} damaged files); thorough runs all of them, quick runs every edit of the smallest file of each format (deterministic core) plus the slice i = VERIF_SEED mod {} of the rest, plus - for every 3rd block that holds a non-ASCII letter - the deletion of its header line and of its first such line, the file cut in the middle of each, and each of them cut midway; each damaged text goes through ctehexml::parse + cached catalog + Model::try_from (resp. Data::new, kyg::parse, tbl::parse) in a supervised worker (15 s watchdog, 4 GiB, panic-site capture); non-trivial = the damage is noticed (error or panic)", total, stride),
         ctx.tier == Tier::Thorough,
         json!({"space_size": total}),
     )
